@@ -21,7 +21,7 @@ RULE = ("abstract unitary programs over the gate catalogue (qubits and qudits, 1
         "simulator under option combinations (dtype x split_untangled_states x initial-state form x qubit order); "
         "non-trivial = reference unitary differs from identity by >1e-6 and program has >=2 operations; distinct by program text")
 ASSUMPTIONS = ["catalogue matrices (C03) are the ground truth", "complex64 tolerance 1e-4, complex128 1e-7"]
-MIN_EVAL = {"Circuit.unitary": 100, "Simulator.simulate": 300, "DensityMatrixSimulator.simulate": 100,
+MIN_EVAL = {"linalg-helper": 500, "Circuit.unitary": 100, "Simulator.simulate": 300, "DensityMatrixSimulator.simulate": 100,
             "simulate_moment_steps": 100, "simulate_sweep": 50, "ClassicalStateSimulator": 50}
 MUST_REACH = [
     "cirq/circuits/circuit.py:_apply_unitary_circuit",
@@ -370,8 +370,141 @@ def sec_classical(ctx, rng, case):
     ctx.sample({"init": init_bits, "program": desc[:8], "measured": msel})
 
 
+
+def sec_helpers(ctx, rng, case):
+    """the numeric helpers the simulators rely on, on the kind of arguments the simulators pass
+    (transposed / strided views, aliased out= buffers, non-adjacent axes), judged by plain numpy"""
+    import cirq
+
+    kind = case % 9
+    n = int(rng.integers(1, 5))
+    dims = [int(rng.choice([2, 2, 2, 3])) for _ in range(n)]
+    D = L.dim_of(dims)
+    dtype = [np.complex64, np.complex128][int(rng.integers(2))]
+    tol = 2e-5 if dtype == np.complex64 else 1e-9
+    wit = dict(kind=kind, dims=dims, dtype=dtype.__name__)
+    if kind == 0:  # targeted_left_multiply with out=None / fresh out / strided target
+        k = int(rng.integers(1, n + 1))
+        axes = [int(x) for x in rng.choice(n, size=k, replace=False)]
+        sub = [dims[a] for a in axes]
+        m = (rng.standard_normal((L.dim_of(sub),) * 2) + 1j * rng.standard_normal((L.dim_of(sub),) * 2)).astype(dtype)
+        t = (rng.standard_normal(D) + 1j * rng.standard_normal(D)).astype(dtype).reshape(dims)
+        if rng.random() < 0.5:
+            perm = [int(x) for x in rng.permutation(n)]
+            t = np.transpose(np.ascontiguousarray(np.transpose(t, perm)), [int(x) for x in np.argsort(perm)])
+        orig = t.copy()
+        out = None if rng.random() < 0.4 else np.full(t.shape, np.nan, dtype=dtype)
+        got = cirq.targeted_left_multiply(m.reshape(sub + sub), t, axes, out=out)
+        want = L.apply_on_axes(orig, m, axes, sub)
+        ok = L.allclose(got, want, tol * 10 * max(1, np.abs(want).max())) and np.array_equal(t, orig) and (out is None or got is out)
+        ctx.check(ok, "linalg-helper", "C01:helper:targeted_left_multiply", "axes %s" % axes, axes=axes, **wit)
+    elif kind == 1:  # apply_matrix_to_slices
+        a = int(rng.integers(n))
+        d = dims[a]
+        t = (rng.standard_normal(D) + 1j * rng.standard_normal(D)).astype(dtype).reshape(dims)
+        m = (rng.standard_normal((d, d)) + 1j * rng.standard_normal((d, d))).astype(dtype)
+        slices = [tuple([slice(None)] * a + [i]) for i in range(d)]
+        orig = t.copy()
+        out = None if rng.random() < 0.5 else np.full(t.shape, np.nan, dtype=dtype)
+        got = cirq.apply_matrix_to_slices(t, m, slices, out=out)
+        want = L.apply_on_axes(orig, m, [a], [d])
+        ctx.check(L.allclose(got, want, tol * 10 * max(1, np.abs(want).max())) and np.array_equal(t, orig), "linalg-helper", "C01:helper:apply_matrix_to_slices", "", axis=a, **wit)
+    elif kind == 2:  # partial_trace
+        rho = L.random_rho(rng, D).astype(dtype)
+        keep = sorted(int(x) for x in rng.choice(n, size=int(rng.integers(0, n + 1)), replace=False))
+        order = [int(x) for x in rng.permutation(len(keep))]
+        keep_arg = [keep[i] for i in order]
+        got = cirq.partial_trace(rho.reshape(dims + dims), keep_arg)
+        want = L.ptrace_keep(rho, keep, dims)
+        kd = [dims[k] for k in keep]
+        want = L.permute_wires(want, order, kd) if keep else want
+        dk = L.dim_of(kd)
+        ctx.check(L.allclose(np.asarray(got).reshape(dk, dk), want.reshape(dk, dk), tol * 10), "linalg-helper", "C01:helper:partial_trace", "keep %s" % keep_arg, keep=keep_arg, **wit)
+    elif kind == 3:  # kronecker products
+        n2 = int(rng.integers(1, 3))
+        dims2 = [int(rng.choice([2, 3])) for _ in range(n2)]
+        a = L.random_state(rng, D).astype(dtype).reshape(dims)
+        b = L.random_state(rng, L.dim_of(dims2)).astype(dtype).reshape(dims2)
+        got = cirq.linalg.transformations.state_vector_kronecker_product(a, b)
+        want = np.kron(a.reshape(-1), b.reshape(-1)).reshape(dims + dims2)
+        ctx.check(got.shape == want.shape and L.allclose(got, want, tol), "linalg-helper", "C01:helper:state_vector_kronecker_product", "", **wit)
+        ra = L.random_rho(rng, D).astype(dtype).reshape(dims + dims)
+        rb = L.random_rho(rng, L.dim_of(dims2)).astype(dtype).reshape(dims2 + dims2)
+        got = cirq.linalg.transformations.density_matrix_kronecker_product(ra, rb)
+        want = np.kron(ra.reshape(D, D), rb.reshape(L.dim_of(dims2), L.dim_of(dims2))).reshape(dims + dims2 + dims + dims2)
+        ctx.check(got.shape == want.shape and L.allclose(got, want, tol), "linalg-helper", "C01:helper:density_matrix_kronecker_product", "", **wit)
+    elif kind == 4 and n >= 2:  # factor_state_vector on a product state, random axes
+        k = int(rng.integers(1, n))
+        axes = [int(x) for x in rng.choice(n, size=k, replace=False)]
+        rest = [i for i in range(n) if i not in axes]
+        ea = L.random_state(rng, L.dim_of([dims[a] for a in axes]))
+        er = L.random_state(rng, L.dim_of([dims[a] for a in rest]))
+        full = np.kron(ea, er).reshape([dims[a] for a in axes] + [dims[a] for a in rest])
+        t = np.moveaxis(full, range(k), axes) if False else np.transpose(full, [int(x) for x in np.argsort(axes + rest)])
+        t = t.astype(dtype)
+        ex, rem = cirq.linalg.transformations.factor_state_vector(t, axes, validate=True, atol=1e-4)
+        ok = (L.phase_equal(ex.reshape(-1), ea, tol * 50) and L.phase_equal(rem.reshape(-1), er, tol * 50)
+              and L.allclose(np.kron(ex.reshape(-1), rem.reshape(-1)), np.kron(ea, er).astype(dtype), tol * 50))
+        ctx.check(ok, "linalg-helper", "C01:helper:factor_state_vector", "axes %s" % axes, axes=axes, **wit)
+        ent = L.random_state(rng, D).astype(dtype).reshape(dims)
+        try:
+            cirq.linalg.transformations.factor_state_vector(ent, axes, validate=True)
+            ctx.check(False, "linalg-helper", "C01:helper:factor_state_vector-accepts-entangled", "", axes=axes, **wit)
+        except ValueError:
+            ctx.reject("factor-entangled")
+    elif kind == 5 and n >= 2:  # factor_density_matrix
+        k = int(rng.integers(1, n))
+        axes = [int(x) for x in rng.choice(n, size=k, replace=False)]
+        rest = [i for i in range(n) if i not in axes]
+        da, dr = L.dim_of([dims[a] for a in axes]), L.dim_of([dims[a] for a in rest])
+        ra, rr = L.random_rho(rng, da), L.random_rho(rng, dr)
+        full = np.kron(ra, rr).reshape([dims[a] for a in axes] + [dims[a] for a in rest] + [dims[a] for a in axes] + [dims[a] for a in rest])
+        inv = [int(x) for x in np.argsort(axes + rest)]
+        t = np.transpose(full, inv + [n + i for i in inv]).astype(dtype)
+        ex, rem = cirq.linalg.transformations.factor_density_matrix(t, axes, validate=True, atol=1e-4)
+        ok = L.allclose(np.asarray(ex).reshape(da, da), ra, tol * 50) and L.allclose(np.asarray(rem).reshape(dr, dr), rr, tol * 50)
+        ctx.check(ok, "linalg-helper", "C01:helper:factor_density_matrix", "axes %s" % axes, axes=axes, **wit)
+    elif kind == 6:  # transposes
+        t = (rng.standard_normal(D) + 1j * rng.standard_normal(D)).astype(dtype).reshape(dims)
+        axes = [int(x) for x in rng.permutation(n)]
+        got = cirq.linalg.transformations.transpose_state_vector_to_axis_order(t, axes)
+        ctx.check(np.array_equal(got, np.transpose(t, axes)), "linalg-helper", "C01:helper:transpose_state_vector_to_axis_order", "", axes=axes, **wit)
+        r = (rng.standard_normal(D * D)).astype(dtype).reshape(dims + dims)
+        got = cirq.linalg.transformations.transpose_density_matrix_to_axis_order(r, axes)
+        ctx.check(np.array_equal(got, np.transpose(r, axes + [n + a for a in axes])), "linalg-helper", "C01:helper:transpose_density_matrix_to_axis_order", "", axes=axes, **wit)
+        flat = t.reshape(-1)
+        got = cirq.linalg.transformations.transpose_flattened_array(flat, dims, axes)
+        ctx.check(np.array_equal(got, np.transpose(t, axes).reshape(-1)), "linalg-helper", "C01:helper:transpose_flattened_array", "", axes=axes, **wit)
+    elif kind == 7 and n >= 2:  # sub_state_vector
+        k = int(rng.integers(1, n))
+        keep = sorted(int(x) for x in rng.choice(n, size=k, replace=False))  # the result is over the kept qubits in index order
+        rest = [i for i in range(n) if i not in keep]
+        if any(d != 2 for d in dims):
+            return
+        ea = L.random_state(rng, 2 ** k)
+        er = L.random_state(rng, 2 ** (n - k))
+        full = np.kron(ea, er).reshape([2] * n)
+        t = np.transpose(full, [int(x) for x in np.argsort(keep + rest)]).reshape(-1)
+        got = cirq.sub_state_vector(t, keep, atol=1e-6)
+        ctx.check(got is not None and L.phase_equal(np.asarray(got).reshape(-1), ea, 1e-6), "linalg-helper", "C01:helper:sub_state_vector", "keep %s" % keep, keep=keep, **wit)
+        ent = L.random_state(rng, 2 ** n)
+        ctx.check(cirq.sub_state_vector(ent, keep, default=None, atol=1e-8) is None, "linalg-helper", "C01:helper:sub_state_vector-accepts-entangled", "", keep=keep, **wit)
+    else:  # to_valid_state_vector / one_hot basis states in mixed radix (big endian)
+        idx = int(rng.integers(D))
+        v = cirq.to_valid_state_vector(idx, qid_shape=tuple(dims), dtype=dtype)
+        want = np.zeros(D)
+        want[idx] = 1
+        ctx.check(v.shape == (D,) and np.array_equal(v, want.astype(dtype)), "linalg-helper", "C01:helper:to_valid_state_vector-int", "", index=idx, **wit)
+        digs = list(L.index_to_digits(idx, dims))
+        if len(set(dims)) == 1 or True:
+            v2 = cirq.to_valid_state_vector(digs, qid_shape=tuple(dims), dtype=dtype) if n > 0 else v
+            ctx.check(np.array_equal(v2, want.astype(dtype)), "linalg-helper", "C01:helper:to_valid_state_vector-digits", "digits %s" % digs, digits=digs, **wit)
+    ctx.distinct((kind, tuple(dims), dtype.__name__, int(rng.integers(1 << 30))))
+
+
 SECTIONS = [
     ("programs", sec_programs, 3000, 60000, 6.0),
     ("sweeps", sec_sweeps, 1200, 20000, 1.5),
     ("classical", sec_classical, 1500, 30000, 1.0),
+    ("helpers", sec_helpers, 2700, 60000, 1.0),
 ]
